@@ -26,6 +26,55 @@ class Model(BaseModel):
         return None
 
 
+def fresh_iterator_rules(ctx):
+    """C06.e (also a necessary condition of C12: a new iterator does not depend on the mode set on the Scanner)."""
+    F = ctx.facts
+    # ---- C06.e fresh iterators start in mode 0 ---------------------------------------------------
+    aggs = aggregates_of(F, "FindMatchesImpl")
+    ctx.floor("C06.e", "FindMatchesImpl constructors", len(aggs), 1)
+    for fn, bb, i, s in aggs:
+        ok = re.search(r"FindMatchesImpl::<..>::new$", fn.name) is not None
+        ctx.ob("C06.e", "ctor-only-in-new:" + M.short_name(fn.name), ok, "FindMatchesImpl is constructed in %s" % fn.name, fn.loc(bb, i))
+    new = F.fn(r"FindMatchesImpl::<..>::new$")
+    ctx.analysed_fn(new)
+    ex, paths = run_fn(new, F, Model(), inline=r"ScannerImpl::reset$")
+    rp = ret_paths(paths)
+    ctx.floor("C06.e", "return paths of FindMatchesImpl::new", len(rp), 1)
+    for p in rp:
+        ret = p.end[1]
+        ok = False
+        detail = "returned value is not a FindMatchesImpl aggregate: %s" % S.vstr(ret)
+        if ret[0] == "adt" and ret[3]:
+            si = ret[3][0]
+            # reset() inlined: the scanner_impl field of the returned value is the moved-in scanner
+            # with current_mode overwritten by 0
+            ok = (si[0] == "upd" and si[1] == ("sym", "scanner_impl") and [st[1] for st in si[2]] == ["current_mode"] and si[3] == ("int", 0))
+            detail = "returned scanner_impl = %s" % S.vstr(si)
+        ctx.ob("C06.e", "new-resets-the-returned-scanner", ok, detail, new.loc())
+    rst = F.fn(r"ScannerImpl::reset$")
+    ex, paths = run_fn(rst, F, Model())
+    for p in ret_paths(paths):
+        ws = heap_writes(p, "current_mode")
+        ctx.ob("C06.e", "reset-writes-0", len(ws) == 1 and ws[0][2] == ("int", 0), "reset writes current_mode = %s" % [S.vstr(w[2]) for w in ws], rst.loc())
+    # only FindMatches::new calls FindMatchesImpl::new; Scanner::find_iter hands a clone of its own inner
+    cs = [c for c in callers_of(F, r"FindMatchesImpl::<..>::new$") if not is_derived(c[0])]
+    ctx.ob("C06.e", "single-caller-of-FindMatchesImpl::new", len(cs) == 1 and re.search(r"FindMatches::<..>::new$", cs[0][0].name) is not None,
+           "callers: %s" % [M.short_name(c[0].name) for c in cs], "")
+    cs = [c for c in callers_of(F, r"find_matches::FindMatches::<..>::new$")]
+    ctx.ob("C06.e", "single-caller-of-FindMatches::new", len(cs) == 1 and re.search(r"Scanner::find_iter$", cs[0][0].name) is not None,
+           "callers: %s" % [M.short_name(c[0].name) for c in cs], "")
+    fi = F.fn(r"scanner::Scanner::find_iter$")
+    ctx.analysed_fn(fi)
+    ex, paths = run_fn(fi, F, Model())
+    for p in ret_paths(paths):
+        c = p.calls(r"FindMatches::<..>::new$")
+        ok = len(c) == 1 and S.vstr(c[0][3][0]) in ("self.inner",) and c[0][3][1] == ("sym", "input") or (len(c) == 1 and S.vstr(ex.deref_val(p, c[0][3][1])) == "input" and S.vstr(c[0][3][0]) == "self.inner")
+        ctx.ob("C06.e", "find_iter-clones-own-inner", bool(ok), "FindMatches::new(%s)" % (", ".join(S.vstr(a) for a in c[0][3]) if c else ""), fi.loc())
+        cl = [e for e in p.events if e[0] == "call" and re.search(r"ScannerImpl as std::clone::Clone>::clone$", e[2])]
+        ctx.ob("C06.e", "find_iter-passes-a-clone", len(cl) == 1, "%d clone call(s) of ScannerImpl" % len(cl), fi.loc())
+
+
+
 def check(ctx):
     F = ctx.facts
     ctx.trust("rustc type checker / MIR construction (nightly), the fact driver")
@@ -231,49 +280,7 @@ def check(ctx):
         ok = len(c) == 1 and "scanner_modes" in S.vstr(c[0][3][0]) and "current_mode" in S.vstr(c[0][3][0]) and S.vstr(c[0][3][1]) == "token_type" and p.end[1] == c[0][4]
         ctx.ob("C06.d", "ScannerImpl::has_transition-forwards", ok, "forwards to %s" % (S.vstr(c[0][3][0]) if c else None), sh.loc())
 
-    # ---- C06.e fresh iterators start in mode 0 ---------------------------------------------------
-    aggs = aggregates_of(F, "FindMatchesImpl")
-    ctx.floor("C06.e", "FindMatchesImpl constructors", len(aggs), 1)
-    for fn, bb, i, s in aggs:
-        ok = re.search(r"FindMatchesImpl::<..>::new$", fn.name) is not None
-        ctx.ob("C06.e", "ctor-only-in-new:" + M.short_name(fn.name), ok, "FindMatchesImpl is constructed in %s" % fn.name, fn.loc(bb, i))
-    new = F.fn(r"FindMatchesImpl::<..>::new$")
-    ctx.analysed_fn(new)
-    ex, paths = run_fn(new, F, Model(), inline=r"ScannerImpl::reset$")
-    rp = ret_paths(paths)
-    ctx.floor("C06.e", "return paths of FindMatchesImpl::new", len(rp), 1)
-    for p in rp:
-        ret = p.end[1]
-        ok = False
-        detail = "returned value is not a FindMatchesImpl aggregate: %s" % S.vstr(ret)
-        if ret[0] == "adt" and ret[3]:
-            si = ret[3][0]
-            # reset() inlined: the scanner_impl field of the returned value is the moved-in scanner
-            # with current_mode overwritten by 0
-            ok = (si[0] == "upd" and si[1] == ("sym", "scanner_impl") and [st[1] for st in si[2]] == ["current_mode"] and si[3] == ("int", 0))
-            detail = "returned scanner_impl = %s" % S.vstr(si)
-        ctx.ob("C06.e", "new-resets-the-returned-scanner", ok, detail, new.loc())
-    rst = F.fn(r"ScannerImpl::reset$")
-    ex, paths = run_fn(rst, F, Model())
-    for p in ret_paths(paths):
-        ws = heap_writes(p, "current_mode")
-        ctx.ob("C06.e", "reset-writes-0", len(ws) == 1 and ws[0][2] == ("int", 0), "reset writes current_mode = %s" % [S.vstr(w[2]) for w in ws], rst.loc())
-    # only FindMatches::new calls FindMatchesImpl::new; Scanner::find_iter hands a clone of its own inner
-    cs = [c for c in callers_of(F, r"FindMatchesImpl::<..>::new$") if not is_derived(c[0])]
-    ctx.ob("C06.e", "single-caller-of-FindMatchesImpl::new", len(cs) == 1 and re.search(r"FindMatches::<..>::new$", cs[0][0].name) is not None,
-           "callers: %s" % [M.short_name(c[0].name) for c in cs], "")
-    cs = [c for c in callers_of(F, r"find_matches::FindMatches::<..>::new$")]
-    ctx.ob("C06.e", "single-caller-of-FindMatches::new", len(cs) == 1 and re.search(r"Scanner::find_iter$", cs[0][0].name) is not None,
-           "callers: %s" % [M.short_name(c[0].name) for c in cs], "")
-    fi = F.fn(r"scanner::Scanner::find_iter$")
-    ctx.analysed_fn(fi)
-    ex, paths = run_fn(fi, F, Model())
-    for p in ret_paths(paths):
-        c = p.calls(r"FindMatches::<..>::new$")
-        ok = len(c) == 1 and S.vstr(c[0][3][0]) in ("self.inner",) and c[0][3][1] == ("sym", "input") or (len(c) == 1 and S.vstr(ex.deref_val(p, c[0][3][1])) == "input" and S.vstr(c[0][3][0]) == "self.inner")
-        ctx.ob("C06.e", "find_iter-clones-own-inner", bool(ok), "FindMatches::new(%s)" % (", ".join(S.vstr(a) for a in c[0][3]) if c else ""), fi.loc())
-        cl = [e for e in p.events if e[0] == "call" and re.search(r"ScannerImpl as std::clone::Clone>::clone$", e[2])]
-        ctx.ob("C06.e", "find_iter-passes-a-clone", len(cl) == 1, "%d clone call(s) of ScannerImpl" % len(cl), fi.loc())
+    fresh_iterator_rules(ctx)
 
     # ---- C06.f the attempt uses the automaton of the current mode ----------------------------------
     pf = F.fn(r"ScannerImpl::peek_from$")
